@@ -410,6 +410,10 @@ pub fn run(rep: &mut Report, backend: Bk, thorough: bool) {
             if changed || rk == "PANIC" {
                 rep.finding(format!("C05|proposal-took-effect-by-itself|{prole}|{pc:?}|receiver={rrole}"), format!("a stand-alone proposal {pc:?} from {pname} changed the group at {rname}: {rk}"), json!({"result": rk}));
             }
+            // the only proposal a receiver may act on by itself is a member's own request to leave (an admin commits it)
+            if !matches!(pc, ProposalContent::SelfRemove) && (rk == "Proposal" || r.group_obs(&gid).map(|o| o.pending_commit).unwrap_or(false)) {
+                rep.finding(format!("C05|proposal-auto-committed|{prole}|{pc:?}|receiver={rrole}"), format!("{rname} ({rrole}) answered {rk} to a stand-alone proposal {pc:?} from {pname} and holds a commit for it"), json!({"result": rk}));
+            }
             let refused = rk.starts_with("Err") || rk == "Unprocessable" || rk == "IgnoredProposal";
             if refused && before.full != after.full {
                 rep.finding(format!("C05|refused-proposal-changed-state|{prole}|{pc:?}|receiver={rrole}"), format!("proposal {pc:?} from {pname} was refused by {rname} ({rk}) but changed its state"), json!({"result": rk}));
@@ -497,6 +501,39 @@ pub fn run(rep: &mut Report, backend: Bk, thorough: bool) {
                         format!("receiver {rname}: A's {op} commit changed {rd:?} instead of {want:?} (queued {pc:?} from {pname})"),
                         json!({"op": op, "queued": format!("{pc:?}"), "delta": format!("{rd:?}")}),
                     );
+                }
+            }
+        }
+    }
+    // an honest admin's operations on an empty queue: each changes exactly what it names, also when it takes something away
+    {
+        let admin_sets: Vec<(&str, Vec<&str>)> = vec![("demote-the-other-admin", vec!["A"]), ("promote-a-member", vec!["A", "B", "M"]), ("swap", vec!["A", "M"])];
+        for (label, names) in &admin_sets {
+            let a = idle("A");
+            let Some(before) = view(&a, &gid) else { continue };
+            let pks: Vec<PublicKey> = names.iter().filter_map(|n| pk_of(n)).collect();
+            let r = with_mdk!(a, m => m.update_group_data(&gid, NostrGroupDataUpdate::new().admins(pks.clone())));
+            let Ok(r) = r else {
+                rep.outcome(&format!("send:set-admins:{label}:refused"));
+                continue;
+            };
+            let _ = with_mdk!(a, m => m.merge_pending_commit(&gid));
+            let Some(after) = view(&a, &gid) else { continue };
+            let mut want = Delta::default();
+            want.admins = Some(names.iter().map(|n| pk_hex(n)).collect());
+            let d = delta(&before, &after);
+            rep.case(&format!("send|set-admins|{label}|{}", d == want));
+            if d != want {
+                rep.finding(format!("C05|admin-operation-changed-other-than-it-names|update_group_data(admins)|{label}"), format!("admin A sets the admins to {names:?}: the group changed {d:?} instead of {want:?}"), json!({"delta": format!("{d:?}"), "want": format!("{want:?}"), "backend": format!("{backend:?}")}));
+            }
+            for (rrole, rname) in &receivers {
+                let rc = idle(rname);
+                let Some(rb) = view(&rc, &gid) else { continue };
+                let rr = rc.process(&r.evolution_event);
+                let Some(ra) = view(&rc, &gid) else { continue };
+                rep.case(&format!("send-recv|set-admins|{label}|{rrole}|{}", result_kind(&rr)));
+                if result_kind(&rr) == "Commit" && delta(&rb, &ra) != want {
+                    rep.finding(format!("C05|admin-operation-changed-other-than-it-names|update_group_data(admins)|{label}"), format!("receiver {rname}: A's admin update to {names:?} changed {:?}", delta(&rb, &ra)), json!({"backend": format!("{backend:?}")}));
                 }
             }
         }
